@@ -417,7 +417,8 @@ def oracle(c, r=None):
         k, which, off, q = bad[0]
         return (sig, "deg_step=%r alpha=%r n=%d: vertex %s of %d is not on the tangent line of direction %.6g deg "
                      "(offset %r along the normal, (1-alpha)-quantile of the projected sample %r)" % (
-                         deg_step, alpha, len(x), verts, M, math.degrees(0.5 * math.pi + s - k * s), off, q))
+                         deg_step, alpha, len(x), verts if len(verts) <= 8 else "%r ... (%d vertices)" % (verts[:8], len(verts)), M,
+                         math.degrees(0.5 * math.pi + s - k * s), off, q))
     if beyond:
         k, n_gt, n_ge = beyond[0]
         return ({"class": cls, "clause": "fraction-beyond"},
